@@ -48,7 +48,7 @@ def slices(tier):
             # 4 object leaves in a chain on one species, leaves holding subsequences of abc: three nested ancestors, a
             # family carried down past a node none of whose leaves has it
             ("O4chainx1x3s", [(sh, None) for sh in spaces.chain_shapes(4)], [s for s in o3 if s == tuple(sorted(s))],
-             [core[0]], False),
+             [core[0], spaces.CV_DISTINCT], False),
         ]
     full = core + [c for c in EXTRA_VECTORS if spaces.coherent(c)]
     return [
